@@ -153,6 +153,12 @@ def run(ctx):
     gentie.run(ctx, target="f128", generated="SSA_F128.lean", module="Props.C03Gen128", key="f128",
                namespace="C03Gen128", deps=[("num", "SSA_Num.lean", "c01gen.lock")])
     ctx.harness("./cmd/c03", overlay=OVERLAY)
+    if ctx.extra.get("overlay_fallback"):
+        ctx.assumptions.append(
+            "overlay fallback (build tag nooverlay): the white-box accessor for the raw 128-bit value did not compile "
+            "against this working tree, so f128 raw values are read through String() (exact decimal expansion, parsed "
+            "with math/big) and built through FromString of the exact literal - exact for all 2^128 values, Min/Max "
+            "included, but through the library's own text code (subject of C04) instead of direct word access")
     thm = ("C03.f64_mul_spec / f64_div_spec / f64_mod_spec (every non-zero divisor) / f64_trunc_spec / f64_ceil_spec / f64_round_spec / "
            "f64_from_int_exact / f64_as_int_exact (and the f128_ twins), f64_f128_agree, mul_rational … : the model "
            "equals exact decimal arithmetic truncated toward zero under the representability hypotheses, which hold "
